@@ -663,6 +663,7 @@ theorem runFx_sim (a : Actor) (s : St) (f : Fx) (hc : Core a s) :
     · exact ⟨s, by simp [accepts_cons], ⟨rfl, rfl, rfl, rfl, rfl, rfl⟩, rfl,
         hc.congr (by rfl) (by rfl) (by rfl) (by rfl) (by rfl) (by rfl) (by rfl) (by rfl) (by rfl), id⟩
     · exact ⟨s, by simp [accepts_cons], Frame.refl a, rfl, hc, id⟩
+  | spawnChild c => exact ⟨s, by simp [runFx, accepts_cons, next], Frame.refl a, rfl, hc, id⟩
 
 theorem runFxs_sim (fs : List Fx) (a : Actor) (s : St) (hc : Core a s) :
     Sim (next me) (FxRel a s) s (runFxs a fs) := by
